@@ -21,6 +21,7 @@ structure RLInv (nn : NNet) (x : Nat) (cur : Net) (rem : List Nat) (ren : Option
   nodup : rem.Nodup
   xins : ∀ k l', (cur.node x).ins.getD k none = some l' → r.line l' ∈ rem
   xouts : ∀ k, (cur.node x).outs.getD k none = none
+  rnode : ∀ j, r.node j = j
 
 theorem removeLines_inv (nn : NNet) (x : Nat) : ∀ (rem : List Nat) (cur : Net) (ren : Option Nat → Option Nat) (r : Ren)
     (net' : Net), RLInv nn x cur rem ren r → removeLines ren rem cur = some net' →
@@ -49,7 +50,7 @@ theorem removeLines_inv (nn : NNet) (x : Nat) : ∀ (rem : List Nat) (cur : Net)
         have : (cur.node x).outs.getD (cur.line l').dpin none = some l' := by rw [← e0]; exact bo
         rw [iv.xouts] at this; exact absurd this (by simp)
       refine removeLines_inv nn x rest cur' _ (r.comp (lineRen cur.lines.size l')) net' ?_ he
-      refine ⟨w', ?_, by rw [sp.nsize]; exact iv.xlt, by rw [sp.io]; exact iv.xio, ?_, hnd.2, ?_, ?_⟩
+      refine ⟨w', ?_, by rw [sp.nsize]; exact iv.xlt, by rw [sp.io]; exact iv.xio, ?_, hnd.2, ?_, ?_, fun j => iv.rnode j⟩
       · refine (iv.emb.trans e').weaken ?_
         intro j _ hj
         rcases hj with hj | hj
@@ -100,9 +101,11 @@ theorem removeLines_inv (nn : NNet) (x : Nat) : ∀ (rem : List Nat) (cur : Net)
 theorem removeRoot_emb (nn : NNet) (w : WFm nn) (x : Nat) (hx : x < nn.net.nodes.size) (hio : x ∉ nn.net.io)
     (houts : ∀ k, (nn.net.node x).outs.getD k none = none) (net' : Net)
     (he : removeLines id ((nn.net.node x).ins.filterMap id) nn.net = some net') :
-    WFm (delNode { nn with net := net' } x) ∧ ∃ r, Emb nn (delNode { nn with net := net' } x) r := by
+    WFm (delNode { nn with net := net' } x) ∧ ∃ r, Emb nn (delNode { nn with net := net' } x) r ∧
+      ∀ j, j < nn.net.nodes.size → j ≠ x → ∃ j', j' < (delNode { nn with net := net' } x).net.nodes.size ∧ r.node j' = j := by
   have iv0 : RLInv nn x nn.net ((nn.net.node x).ins.filterMap id) id Ren.id := by
-    refine ⟨w, (Emb.refl nn w.io (fun l hl => (w.back l hl).1)).weaken (fun _ _ h => absurd h id), hx, hio, ?_, ?_, ?_, houts⟩
+    refine ⟨w, (Emb.refl nn w.io (fun l hl => (w.back l hl).1)).weaken (fun _ _ h => absurd h id), hx, hio, ?_, ?_, ?_, houts,
+      fun _ => rfl⟩
     · intro l0 hl0
       obtain ⟨k, hk⟩ := (mem_filterMap_id _ l0).mp hl0
       obtain ⟨a1, a2, _⟩ := w.fwdIn x hx k l0 hk
@@ -129,12 +132,21 @@ theorem removeRoot_emb (nn : NNet) (w : WFm nn) (x : Nat) (hx : x < nn.net.nodes
       simp at this
   have w2 := dn_wfm iv.wfm iv.xlt iv.xio hd
   have e2 := dn_emb iv.wfm iv.xlt iv.xio hd
-  refine ⟨w2, _, (iv.emb.trans e2).strengthen ?_⟩
-  intro j hj hc
   have hs := (delNode_sizes { nn with net := net' } x).1
-  rw [hs] at hj
-  rcases hc with hc | hc
-  · exact hc
-  · exact (nm_facts iv.xlt hj).2.1 hc
+  have hsz : net'.nodes.size = nn.net.nodes.size := by
+    have := iv.emb.nodeLt
+    exact (pinsOnly_removeLines _ _ _ _ he).1.1
+  refine ⟨w2, _, (iv.emb.trans e2).strengthen ?_, ?_⟩
+  · intro j hj hc
+    rw [hs] at hj
+    rcases hc with hc | hc
+    · exact hc
+    · exact (nm_facts iv.xlt hj).2.1 hc
+  · intro j hj hne
+    have hj' : j < net'.nodes.size := by rw [hsz]; exact hj
+    obtain ⟨m1, m2⟩ := mv_facts iv.xlt hj' hne
+    refine ⟨mvN net'.nodes.size x j, by rw [hs]; exact m1, ?_⟩
+    show r'.node (nmN net'.nodes.size x (mvN net'.nodes.size x j)) = j
+    rw [m2, iv.rnode]
 
 end KV.Transform
